@@ -77,6 +77,10 @@ func (s *ServerHello) DecodeAware(r *Reader, v int) error {
 
 	s.Major, s.Minor, s.Revision = major, minor, revision
 
+	if revision < v {
+		// Older server sends only fields it knows about.
+		v = revision
+	}
 	if FeatureTimezone.In(v) {
 		v, err := r.Str()
 		if err != nil {
@@ -108,6 +112,10 @@ func (s *ServerHello) EncodeAware(b *Buffer, v int) {
 	b.PutInt(s.Major)
 	b.PutInt(s.Minor)
 	b.PutInt(s.Revision)
+	if s.Revision < v {
+		// Older server sends only fields it knows about.
+		v = s.Revision
+	}
 	if FeatureTimezone.In(v) {
 		b.PutString(s.Timezone)
 	}
